@@ -77,7 +77,7 @@ def _is_simple(a):
     b.eliminate_zeros()
     if b.shape[0] != b.shape[1]:
         return False
-    return abs(b - b.T).nnz == 0 and b.diagonal().sum() == 0 and (b.nnz == 0 or (b.data > 0).all())
+    return bool(abs(b - b.T).nnz == 0 and b.diagonal().sum() == 0 and (b.nnz == 0 or (b.data > 0).all()))
 
 
 def _pat(a):
@@ -176,7 +176,7 @@ def in_child(ctx, fn):
             res = fn()
             if not isinstance(res, StreamList):
                 pickle.dump([_raw(c) for c in res], _STREAM)
-            pickle.dump({'dist': ctx.dist}, _STREAM)
+            pickle.dump({'dist': ctx.dist, 'n_cases': len(res)}, _STREAM)
             _STREAM.close()
         except BaseException:
             import traceback
@@ -204,6 +204,7 @@ def in_child(ctx, fn):
             err = open(out + '.err').read() if os.path.exists(out + '.err') else 'exit %d' % os.WEXITSTATUS(status)
             raise ToolFailure('case builder failed in the child process:\n' + err[-3000:])
         cases = []
+        trailer = None
         with open(out, 'rb') as fh:
             while True:
                 try:
@@ -211,10 +212,14 @@ def in_child(ctx, fn):
                 except (EOFError, pickle.UnpicklingError):
                     break
                 if isinstance(chunk, dict):
+                    trailer = chunk
                     for k, v in chunk['dist'].items():
                         ctx.dist[k] = v
                 else:
                     cases += [Case(*r) for r in chunk]
+        if not os.WIFSIGNALED(status) and (trailer is None or trailer.get('n_cases') != len(cases)):
+            raise ToolFailure('truncated result stream from the case builder: %d cases read, trailer %r' % (
+                len(cases), None if trailer is None else trailer.get('n_cases')))
         crash = None
         if os.WIFSIGNALED(status):
             case = json.load(open(prog)) if os.path.exists(prog) else {}
@@ -255,7 +260,7 @@ def cases_for_graph(ctx, a, rng, name='', simple=True, ks=None, funcs=('tri', 'c
     sp = _pat(s)
     gd = _gdesc(a)
     _progress({'f': 'all', 'graph': gd, 'name': name, 'funcs': list(funcs), 'ks': None if ks is None else list(ks),
-               'simple': simple})
+               'simple': bool(simple)})
     out = []
     nontriv = s.nnz > 0
     wedge = _has_wedge(s)
@@ -626,8 +631,47 @@ def _ks_for(rng, a, quick):
 
 
 def variants(ctx, a, rng):
-    """Same undirected graph in other clothes: unsorted indices, integer weights, bool / int dtype."""
-    v = rng.choice(['unsorted', 'weights', 'bool', 'int', 'float32'])
+    """Same undirected graph in other clothes: unsorted indices, integer weights, bool / int dtype, stored zeros,
+    duplicate entries (a scipy matrix that is not in canonical format)."""
+    v = rng.choice(['unsorted', 'weights', 'bool', 'int', 'float32', 'explicit_zeros', 'duplicates'])
+    n = a.shape[0]
+    if v == 'explicit_zeros' and n >= 2:
+        # the way they arise in practice: entries set to zero without eliminate_zeros()
+        coo = sparse.coo_matrix(a)
+        rows, cols, data = list(coo.row), list(coo.col), list(coo.data)
+        present = set(zip(rows, cols))
+        for _ in range(rng.randint(1, 2 * n)):
+            i, j = rng.randrange(n), rng.randrange(n)
+            if (i, j) not in present:
+                for (x, y) in {(i, j), (j, i)}:
+                    present.add((x, y))
+                    rows.append(x)
+                    cols.append(y)
+                    data.append(0.0)
+        order = np.lexsort((np.array(cols), np.array(rows)))
+        rows, cols, data = np.array(rows)[order], np.array(cols)[order], np.array(data, dtype=float)[order]
+        indptr = np.zeros(n + 1, dtype=np.int32)
+        np.add.at(indptr, rows + 1, 1)
+        indptr = np.cumsum(indptr).astype(np.int32)
+        return v, sparse.csr_matrix((data, cols.astype(np.int32), indptr), shape=(n, n))
+    if v == 'duplicates' and a.nnz > 0:
+        # some undirected edges stored twice (weight split over the two entries), rows left unsummed
+        coo = sparse.coo_matrix(a)
+        rows, cols, data = list(coo.row), list(coo.col), list(coo.data)
+        und = [(i, j) for i, j in zip(rows, cols) if i < j]
+        for (i, j) in rng.sample(und, min(len(und), rng.randint(1, 3))):
+            for (x, y) in ((i, j), (j, i)):
+                rows.append(x)
+                cols.append(y)
+                data.append(1.0)
+        order = np.lexsort((np.array(cols), np.array(rows)))
+        rows, cols, data = np.array(rows)[order], np.array(cols)[order], np.array(data, dtype=float)[order]
+        indptr = np.zeros(n + 1, dtype=np.int32)
+        np.add.at(indptr, rows + 1, 1)
+        indptr = np.cumsum(indptr).astype(np.int32)
+        return v, sparse.csr_matrix((data, cols.astype(np.int32), indptr), shape=(n, n))
+    if v in ('explicit_zeros', 'duplicates'):
+        v = 'unsorted'
     if v == 'unsorted':
         return v, graphs.unsorted_copy(a, rng)
     if v == 'weights':
@@ -648,6 +692,46 @@ def variants(ctx, a, rng):
     return v, a.astype(np.int64)
 
 
+def hub_graph(m, extra):
+    """star with centre 0 and leaves 1..m, plus the edges `extra` between leaves (no triangle among themselves)"""
+    r = [0] * m + list(range(1, m + 1))
+    c = list(range(1, m + 1)) + [0] * m
+    for (i, j) in extra:
+        r += [i, j]
+        c += [j, i]
+    a = sparse.csr_matrix((np.ones(len(r)), (r, c)), shape=(m + 1, m + 1))
+    a.sort_indices()
+    return a
+
+
+def hub_cases(ctx, desc):
+    """Graphs too large for the brute-force specification: the triangle count is known in closed form (one per extra
+    edge), the coefficient is evaluated by the Lean side from the triangle count and the exact degree sequence
+    (`clusteringFromDegrees`, equal to the specification by `clusteringSpec_from_degrees`)."""
+    from sknetwork.topology import count_triangles, get_clustering_coefficient
+    m, extra = desc['m'], [tuple(e) for e in desc['extra']]
+    _progress(desc)
+    a = hub_graph(m, extra)
+    degs = np.diff(a.indptr).tolist()
+    t = len(extra)
+    out = []
+    sig = {'entry': 'get_clustering_coefficient', 'parallelize': False, 'scope': 'simple', 'stream': 'hub'}
+
+    def f_cc():
+        import warnings
+        with warnings.catch_warnings():
+            warnings.simplefilter('ignore')
+            return 'ok ' + _enc_float(get_clustering_coefficient(a))
+    impl = _call(f_cc)
+    spec = 'c11.spec_cc_deg %d %s %s' % (t, enc_list(degs), impl[3:]) if impl.startswith('ok ') else REFUSED
+    out.append(Case(('hub-cc', m, tuple(extra)), sig, None, impl, spec, True, desc))
+    impl = _call(lambda: 'ok %d' % count_triangles(a))
+    spec = ('c11.spec_closed %d %s' % (t, impl[3:])) if impl.startswith('ok ') else REFUSED
+    out.append(Case(('hub-tri', m, tuple(extra)), {'entry': 'count_triangles', 'parallelize': False, 'scope': 'simple',
+                                                   'stream': 'hub'}, None, impl, spec, True, desc))
+    return out
+
+
 def build_cases(ctx):
     rng = ctx.rng
     quick = ctx.quick
@@ -661,13 +745,17 @@ def build_cases(ctx):
             ks = None
             if n == 6:
                 ks = [2, 3, 4] + rng.sample([5, 6, 7], 1)
+            tag = 'all-k+dag'
+            if n == 6:
+                tag = 'sampled-k'
             if n == 5 and quick and rng.random() < 0.75:
                 # quick tier: every labelled graph keeps triangles / core / clustering / cliques of size 3, 4;
                 # the other clique sizes and the DAG comparison run on a quarter of them
                 funcs = ('tri', 'cc', 'core', 'cliques')
                 ks = [3, 4]
+                tag = 'k=3,4 only'
             cases += cases_for_graph(ctx, a, rng, 'all%d' % n, True, ks, funcs)
-            ctx.count('exhaustive:n=%d' % n)
+            ctx.count('exhaustive:n=%d (%s)' % (n, tag))
     # refused clique sizes
     for k in (1, 0, -1):
         a = _mk(3, _und([(0, 1), (1, 2), (0, 2)]))
@@ -692,6 +780,76 @@ def build_cases(ctx):
         a = _mk(n, _und((i, j) for i in range(n) for j in range(i + 1, n) if rng.random() < pr))
         cases += cases_for_graph(ctx, a, rng, 'dense%d' % n, True, [3, 4, 5], ('cliques', 'core'))
         ctx.count('random:dense')
+    # stored zeros / duplicate entries on small graphs too (every function, every k)
+    for _ in range(40 if quick else 400):
+        n = rng.randint(2, 7)
+        a = _mk(n, _und((i, j) for i in range(n) for j in range(i + 1, n) if rng.random() < rng.choice([0.3, 0.6])))
+        for forced in ('explicit_zeros', 'duplicates'):
+            class _R:     # a tiny adapter: force the variant, keep the other random choices
+                def __init__(self, r, v):
+                    self.r, self.v = r, v
+
+                def choice(self, xs):
+                    return self.v if self.v in xs else self.r.choice(xs)
+
+                def __getattr__(self, k):
+                    return getattr(self.r, k)
+            v, b = variants(ctx, a, _R(rng, forced))
+            cases += cases_for_graph(ctx, b, rng, 'small%d:%s' % (n, v), True, None, ('tri', 'cc', 'core', 'cliques'))
+            ctx.count('variant:' + v)
+    # near-complete graphs: every clique size, non-zero counts at every depth of the recursion
+    for _ in range(4 if quick else 40):
+        n = rng.randint(8, 11 if quick else 14)
+        if rng.random() < 0.5:
+            pairs = [(i, j) for i in range(n) for j in range(i + 1, n)]
+            for e in rng.sample(pairs, rng.randint(0, 3)):
+                pairs.remove(e)
+            name = 'nearcomplete%d' % n
+        else:
+            lab, p = [], 0
+            while len(lab) < n:
+                lab += [p] * rng.choice([1, 1, 2])
+                p += 1
+            lab = lab[:n]
+            pairs = [(i, j) for i in range(n) for j in range(i + 1, n) if lab[i] != lab[j]]
+            name = 'multipartite12-%d' % n
+        es = _und(pairs)
+        if rng.random() < 0.5:
+            es = _relabel(es, n, rng)
+        cases += cases_for_graph(ctx, _mk(n, es), rng, name, True, list(range(2, n + 2)), ('cliques', 'tri', 'core'))
+        ctx.count('nearcomplete')
+    # outside "undirected simple": directed, self-loops, negative and cancelling weights, duplicates that cancel —
+    # the model claims these too ("every square matrix"): run lines, and spec lines where the quantity is defined
+    for _ in range(150 if quick else 1500):
+        n = rng.randint(1, 5)
+        dens = rng.choice([0.3, 0.6, 0.9])
+        rows, cols, data = [], [], []
+        for i in range(n):
+            for j in range(n):
+                if rng.random() < dens and (i != j or rng.random() < 0.3):
+                    rows.append(i)
+                    cols.append(j)
+                    data.append(float(rng.choice([-1, 1, 1, 2])))
+                    if rng.random() < 0.1:       # a duplicate entry, sometimes cancelling
+                        rows.append(i)
+                        cols.append(j)
+                        data.append(float(rng.choice([-1, 1, -data[-1]])))
+        if rng.random() < 0.4:                   # symmetric support with independent weights
+            rows, cols, data = rows + cols, cols + rows, data + [float(rng.choice([-1, 1, 2])) for _ in data]
+        order = np.lexsort((np.array(cols, dtype=int), np.array(rows, dtype=int))) if rows else []
+        r_, c_, d_ = np.array(rows, dtype=int)[order], np.array(cols, dtype=int)[order], np.array(data)[order]
+        indptr = np.zeros(n + 1, dtype=np.int32)
+        np.add.at(indptr, r_ + 1, 1)
+        a = sparse.csr_matrix((d_.astype(float), c_.astype(np.int32), np.cumsum(indptr).astype(np.int32)), shape=(n, n))
+        cases += cases_for_graph(ctx, a, rng, 'degenerate%d' % n, _is_simple(a), None,
+                                 ('tri', 'cc', 'core', 'cliques', 'dag'))
+        ctx.count('degenerate (directed / loops / negative / cancelling)')
+    # hubs: a node of degree >= 46342 (the square of the degree passes 2^31)
+    for m, extra in ([(46342, [(1, 2)]), (50000, [(1, 2), (2, 3)])] if quick else
+                     [(46341, [(1, 2)]), (46342, [(1, 2)]), (50000, [(1, 2), (2, 3)]), (70000, [(1, 2), (3, 4)]),
+                      (100000, [(5, 6)])]):
+        cases += hub_cases(ctx, {'f': 'hub', 'm': m, 'extra': [list(e) for e in extra]})
+        ctx.count('hub')
     # larger graphs (heap depth >= 4, several levels of the clique recursion)
     for name, a in random_graphs(ctx, rng, 5 if quick else 60, 24, 36 if quick else 40):
         cases += cases_for_graph(ctx, a, rng, name, True, [2, 3, 4, rng.choice([5, 6])],
@@ -789,33 +947,51 @@ def sweep_graphs(ctx, rng):
 # ---------------------------------------------------------------------------------------------
 # translator: the prange loop of triangles.pyx (source fact a behavioural run cannot see)
 # ---------------------------------------------------------------------------------------------
+ANCHORED_PYX = ['triangles.pyx', 'cliques.pyx', 'core.pyx', 'minheap.pyx']
+
+
 def prange_lines(ctx):
-    """Descriptor lines for every prange loop of the anchored kernels, from Cython's own parser."""
+    """Descriptor lines for every prange loop of the anchored kernels, from Cython's own parser. A parse tree that
+    the translator does not understand (another Cython version) is a tool failure, not a verdict."""
     from vlib.core import REPO
     try:
+        import Cython
         sys.path.insert(0, os.path.join(VERIF, 'tools'))
         from harness import c11_prange
-    except Exception as e:  # pragma: no cover
-        raise ToolFailure('cannot import the prange translator: %r' % (e,))
-    return c11_prange.describe(os.path.join(REPO, 'sknetwork', 'topology', 'triangles.pyx'))
+        ctx.extra['cython_version'] = Cython.__version__
+        out = []
+        for f in ANCHORED_PYX:
+            for d in c11_prange.describe(os.path.join(REPO, 'sknetwork', 'topology', f)):
+                d['file'] = f
+                out.append(d)
+        return out
+    except ToolFailure:
+        raise
+    except Exception as e:
+        raise ToolFailure('the prange translator could not read the kernels (Cython %s): %r' % (
+            getattr(sys.modules.get('Cython'), '__version__', '?'), e))
 
 
 def check_prange(ctx):
+    """Generated obligations (re-decided on every run): (1) the anchored kernels contain exactly one prange loop, in
+    triangles.pyx:count_triangles_from_dag; (2..) every prange loop found is a pure integer `+` reduction."""
     descs = prange_lines(ctx)
     ctx.extra['prange_loops'] = descs
     lines = ['c11.prange ' + d['line'] for d in descs]
     n_ob = len(lines) + 1
     ok = 0
-    # the parallel branch of count_triangles_from_dag must exist and be the only prange loop of the file
-    if len(descs) == 1 and descs[0]['function'] == 'count_triangles_from_dag':
+    if len(descs) == 1 and descs[0]['function'] == 'count_triangles_from_dag' and descs[0]['file'] == 'triangles.pyx':
         ok += 1
     else:
-        ctx.broken('prange-shape', 'expected exactly one prange loop, in count_triangles_from_dag; found %r' %
-                   [d['function'] for d in descs], {'entry': 'count_triangles', 'parallelize': True, 'obligation': 'prange-shape'})
+        ctx.broken('prange-shape', 'expected exactly one prange loop in %s, in count_triangles_from_dag; found %r' %
+                   (ANCHORED_PYX, [(d['file'], d['function']) for d in descs]),
+                   {'entry': 'count_triangles', 'parallelize': True, 'obligation': 'prange-shape'})
     if lines:
         for d, ans in zip(descs, ctx.lean(lines)):
             if ans == 'racefree':
                 ok += 1
+            elif ans in ('bad-args',) or ans.startswith('unknown-cmd'):
+                raise ToolFailure('driver rejected the prange descriptor %r -> %r' % (d['line'], ans))
             else:
                 ctx.broken('prange-racefree', {'loop': d, 'answer': ans},
                            {'entry': 'count_triangles', 'parallelize': True, 'obligation': 'prange-racefree'})
@@ -846,7 +1022,7 @@ def _nonsquare_cases(b):
                     'c11.tri %s 0' % enc_csr(b), impl, None, False, {'f': 'count_triangles', 'graph': _gdesc(b)}))
     impl = _call(lambda: 'ok ' + enc_list(get_core_decomposition(b)))
     out.append(Case(('core', 'nonsquare', b.shape), {'entry': 'get_core_decomposition', 'shape': 'non-square'},
-                    'c11.core %d %d %s %s' % (b.shape[0], b.shape[1], enc_list(b.indptr), enc_list(b.indices)),
+                    'c11.core %s' % enc_csr(b),
                     impl, None, False, {'f': 'get_core_decomposition', 'graph': _gdesc(b)}))
     impl = _call(lambda: 'ok %d' % count_cliques(b, 3))
     out.append(Case(('cliques', 'nonsquare', b.shape), {'entry': 'count_cliques', 'shape': 'non-square'},
@@ -856,11 +1032,13 @@ def _nonsquare_cases(b):
 
 
 def _cases_of_desc(ctx, case):
+    if case.get('f') == 'hub':
+        return hub_cases(ctx, case)
     a = _from_desc(case['graph'])
     f = case.get('f')
     if a.shape[0] != a.shape[1]:
         return _nonsquare_cases(a)
-    simple = abs(a - a.T).nnz == 0 and a.diagonal().sum() == 0 and (a.data > 0).all()
+    simple = _is_simple(a)
     if f == 'count_cliques':
         return cases_for_graph(ctx, a, ctx.rng, case.get('name', 'replay'), simple, [case['k']], ('cliques', 'dag', 'core'))
     if f == 'all':
@@ -907,6 +1085,12 @@ def search(ctx, pending):
         for name, a in random_graphs(sub, rng, 150, 6, 30):
             cases += [c for c in cases_for_graph(sub, a, rng, name, True, [2, 3, 4, 5, 6],
                                                  ('tri', 'cc', 'core', 'cliques')) if c.spec]
+            if rng.random() < 0.6:       # the same graph in another storage (a defect may exist only there)
+                v, b = variants(sub, a, rng)
+                cases += [c for c in cases_for_graph(sub, b, rng, name + ':' + v, True, [2, 3, 4],
+                                                     ('tri', 'cc', 'core', 'cliques')) if c.spec]
+        for m in (46342, 60000):
+            cases += hub_cases(sub, {'f': 'hub', 'm': m, 'extra': [[1, 2]]})
         return cases
     cases, crash = in_child(sub, build)
     if crash:
@@ -924,7 +1108,7 @@ def replay(ctx, payload):
     if case.get('f') == 'sweep':
         thread_sweep(ctx, [(case.get('name', 'replay'), _from_desc(case['graph']))], reps=5)
         return
-    if 'graph' in case:
+    if 'graph' in case or case.get('f') == 'hub':
         cases, crash = in_child(ctx, lambda: _cases_of_desc(ctx, case))
         if crash:
             report_crash(ctx, crash)
